@@ -32,13 +32,18 @@ ANNOTATION_FACTORIES = {"DetectorOperationsFactory": "<DETECTOR>", "LogicalObser
 
 def check(model: Model, rep: Report, tier: str):
     rep.trust("spec: documented gate mapping R/TICK/H/I/CZ/M/X/SQRT_X/SQRT_X_DAG/Y/SQRT_Y/SQRT_Y_DAG and the detector record-offset forms of DESIGN.md C08.S4")
-    s1(model, rep)
-    s2(model, rep)
-    s3(model, rep)
-    s4(model, rep)
+    with rep.isolated():
+        s1(model, rep)
+    with rep.isolated():
+        s2(model, rep)
+    with rep.isolated():
+        s3(model, rep)
+    with rep.isolated():
+        s4(model, rep)
     from .c05 import _k1_k2
-    share_rule(rep, model, _k1_k2, "C08.S5", "exporting before or after nesting / unrolling gives the same instructions: every operation class's copy() keeps "
-               "all its fields, in particular the record offsets of detector / observable annotations (= C05.K1/K2)")
+    with rep.isolated():
+        share_rule(rep, model, _k1_k2, "C08.S5", "exporting before or after nesting / unrolling gives the same instructions: every operation class's copy() keeps "
+                   "all its fields, in particular the record offsets of detector / observable annotations (= C05.K1/K2)")
 
 
 def _ctor_name(v: Term) -> Optional[str]:
@@ -285,6 +290,43 @@ def _recs(t: Optional[Term], path=None) -> Optional[List[Term]]:
     return out
 
 
+def _s4_case(rep, f, outs, mp, has_m, has_s, has_r, has_so, sub_case, A, m, sc, ref, spec):
+    hit = []
+    for o in outs:
+        c = subst(o.cond, mp)
+        if c == TRUE:
+            hit.append(o)
+        elif c != FALSE:
+            raise AnalysisError(f"DetectorOperation.to_stim_instruction: guard not decidable: {show(c)}")
+    case = f"main={'set' if has_m else 'None'}, secondary={'set' if has_s else 'None'}, ref_offset={'set' if has_r else 'None'}, sec_offset={'set' if has_so else 'None'}" + sub_case
+    if len(hit) != 1 or hit[0].exit != "return":
+        rep.fail("C08.S4", f"DetectorOperation.to_stim_instruction[{case}]", f.loc, found=f"{len(hit)} outcomes", required="exactly one instruction", what="target-shape cases are not a partition", detail=f"partition:{case}")
+        return
+    ins = _instr(hit[0].value)
+    if ins is None:
+        rep.fail("C08.S4", f"DetectorOperation.to_stim_instruction[{case}]", f.loc, found=show(hit[0].value), required="a stim.CircuitInstruction", what="no instruction produced", detail=f"shape:{case}")
+        return
+    recs = _recs(ins.get("targets"), hit[0])
+    if recs is not None:
+        recs = [subst(r, {k: v for k, v in mp.items() if k not in A.values()}) for r in recs]      # a truthiness test names the value itself: not a substitution into values
+    if has_m and has_s and has_r:
+        want = [m, sc, ref] + ([t_add(ref, A["secondary_offset"], -1)] if has_so else [])
+    elif has_m:
+        want = spec.get((has_m, has_s, has_r))
+        # secondary offset is irrelevant without the three-target shape
+    else:
+        want = []
+    ok = ins.get("name") == ("const", "DETECTOR") and recs == want
+    if want:
+        ga = ins.get("gate_args")
+        while ga is not None and ga[0] == "var":
+            ga = ga[3]
+        ok = ok and ga == ("list", (A["qubit_index"], lin({}, Fraction(0))))
+    rep.check(ok, "C08.S4", f"DetectorOperation.to_stim_instruction[{case}]", f.loc, found=f"{show(ins.get('name'))} rec{[show(r) for r in recs] if recs is not None else show(ins.get('targets'))} args {show(ins.get('gate_args')) if ins.get('gate_args') else None}",
+              required=f"DETECTOR rec{[show(w) for w in want]}" + (" args [qubit_index, 0]" if want else ""),
+              what="the detector points at other measurement records than its offsets say", detail=f"offsets:{case}")
+
+
 def s4(model: Model, rep: Report):
     rep.rule("C08.S4", "DetectorOperation.to_stim_instruction: the guards partition the None-ness of (main, secondary, reference offset, secondary offset); "
                        "record targets are main-(last+1); [.., main-(last+1)-ref]; [.., secondary-(last+1)]; [.., .., -ref]; [.., .., -ref, -ref-sec_off]; args (qubit, 0). "
@@ -312,41 +354,27 @@ def s4(model: Model, rep: Report):
     for has_m, has_s, has_r, has_so in itertools.product((True, False), repeat=4):
         mp = {atoms["main_target"]: const(not has_m), atoms["secondary_target"]: const(not has_s),
               atoms["reference_offset"]: const(not has_r), atoms["secondary_offset"]: const(not has_so)}
-        hit = []
+        # a guard may also test the VALUE of an optional integer (``if self.secondary_target:``): for a field that is set, both a zero and a non-zero
+        # value are possible and the specified instruction does not depend on it -- every truth assignment of such tests is one sub-case
+        truthy = {}
         for o in outs:
             c = subst(o.cond, mp)
-            if c == TRUE:
-                hit.append(o)
-            elif c != FALSE:
-                raise AnalysisError(f"DetectorOperation.to_stim_instruction: guard not decidable from None-ness: {show(c)}")
-        case = f"main={'set' if has_m else 'None'}, secondary={'set' if has_s else 'None'}, ref_offset={'set' if has_r else 'None'}, sec_offset={'set' if has_so else 'None'}"
-        n += 1
-        if len(hit) != 1 or hit[0].exit != "return":
-            rep.fail("C08.S4", f"DetectorOperation.to_stim_instruction[{case}]", f.loc, found=f"{len(hit)} outcomes", required="exactly one instruction", what="target-shape cases are not a partition", detail=f"partition:{case}")
-            continue
-        ins = _instr(hit[0].value)
-        if ins is None:
-            rep.fail("C08.S4", f"DetectorOperation.to_stim_instruction[{case}]", f.loc, found=show(hit[0].value), required="a stim.CircuitInstruction", what="no instruction produced", detail=f"shape:{case}")
-            continue
-        recs = _recs(ins.get("targets"), hit[0])
-        if recs is not None:
-            recs = [subst(r, mp) for r in recs]
-        if has_m and has_s and has_r:
-            want = [m, sc, ref] + ([t_add(ref, A["secondary_offset"], -1)] if has_so else [])
-        elif has_m:
-            want = spec.get((has_m, has_s, has_r))
-            # secondary offset is irrelevant without the three-target shape
-        else:
-            want = []
-        ok = ins.get("name") == ("const", "DETECTOR") and recs == want
-        if want:
-            ga = ins.get("gate_args")
-            while ga is not None and ga[0] == "var":
-                ga = ga[3]
-            ok = ok and ga == ("list", (A["qubit_index"], lin({}, Fraction(0))))
-        rep.check(ok, "C08.S4", f"DetectorOperation.to_stim_instruction[{case}]", f.loc, found=f"{show(ins.get('name'))} rec{[show(r) for r in recs] if recs is not None else show(ins.get('targets'))} args {show(ins.get('gate_args')) if ins.get('gate_args') else None}",
-                  required=f"DETECTOR rec{[show(w) for w in want]}" + (" args [qubit_index, 0]" if want else ""),
-                  what="the detector points at other measurement records than its offsets say", detail=f"offsets:{case}")
+            for a in atoms_of(c) if c not in (TRUE, FALSE) else []:
+                names_ = [k for k, v in A.items() if a == v or a == t_cmp("!=", v, lin({}, Fraction(0))) or a == t_cmp("==", v, lin({}, Fraction(0)))]
+                if not names_:
+                    raise AnalysisError(f"DetectorOperation.to_stim_instruction: guard not decidable from None-ness: {show(c)}")
+                truthy[a] = names_[0]
+        has = {"main_target": has_m, "secondary_target": has_s, "reference_offset": has_r, "secondary_offset": has_so}
+        free = [a for a, nm in truthy.items() if has.get(nm, True)]
+        for a, nm in truthy.items():
+            if not has.get(nm, True):
+                mp[a] = FALSE if a[0] != "cmp" or a[1] != "==" else FALSE
+        for values in itertools.product((TRUE, FALSE), repeat=len(free)):
+            mp2 = dict(mp)
+            mp2.update(dict(zip(free, values)))
+            sub_case = "".join(f", {truthy[a]} {'non-zero' if (v == TRUE) == (a[0] != 'cmp' or a[1] != '==') else '== 0'}" for a, v in zip(free, values))
+            _s4_case(rep, f, outs, mp2, has_m, has_s, has_r, has_so, sub_case, A, m, sc, ref, spec)
+            n += 1
     rep.analysed["C08.S4 detector cases"] = n
     # observable
     L = model.cls("LogicalObservableOperation")
